@@ -375,6 +375,9 @@ impl<'a> Work<'a> {
     }
 
     pub fn lookup(&self, name: &str) -> Option<FileId> {
+        if name.is_empty() {
+            return None;
+        }
         self.graph.files.lookup(&to_owned_canon_path(name))
     }
 
@@ -471,6 +474,9 @@ impl<'a> Work<'a> {
         let mut deps = Vec::new();
         if let Some(names) = result.discovered_deps {
             for mut name in names {
+                if name.is_empty() {
+                    continue;
+                }
                 canonicalize_path(&mut name);
                 let fileid = self.graph.files.id_from_canonical(name);
                 // Filter duplicates from the file list.
